@@ -292,7 +292,7 @@ def run(ctx):
         ctx.inst("C10.R2", "postfix=%s" % r, r in g_postfix and r in reg_postfix and r in b_postfix,
                  "grammar:%s pratt:%s builder:%s" % (r in g_postfix, r in reg_postfix, r in b_postfix), "blots-core/src/precedence.rs")
     # primaries: term == lambda_term alternatives; every non-silent primary the grammar can yield has a builder arm
-    term, lterm = G.alt_names("term"), G.alt_names("lambda_term")
+    term, lterm = G.alt_names_flat("term"), G.alt_names_flat("lambda_term")
     ctx.inst("C10.R2", "term==lambda_term", term == lterm, "term=%s lambda_term=%s" % (term, lterm), "blots-core/src/grammar.pest")
     prim = set()
     for t in term:
